@@ -105,6 +105,17 @@ Theorem C16_body_assignment_harmless : forall (U : Type) (e1 e2 e3 : U -> num * 
 Proof. exact body_assignment_harmless. Qed.
 Print Assumptions C16_body_assignment_harmless.
 
+(* The control values are private copies: the user state U (where the variables the control expressions
+   were read from live) is written by the body only — prepfor's normalised limit/step, advfor and the jumps
+   never write back to it: at every point of the loop it is the state after the three evaluations with the
+   bodies applied in order to the values handed to them. *)
+Theorem C16_control_registers_private : forall (U : Type) (e1 e2 e3 : U -> num * U) body u k,
+  let '(_, u1) := e1 u in let '(_, u2) := e2 u1 in let '(_, u3) := e3 u2 in
+  let s := run U e1 e2 e3 body k (init U u) in
+  (3 <= pc U s)%nat -> us U s = apply_bodies U body (seen U s) u3.
+Proof. exact control_registers_private. Qed.
+Print Assumptions C16_control_registers_private.
+
 (* and those values are exactly the ones of for_im (hence, by the theorems above, the manual's) *)
 Theorem C16_machine_runs_for_im : forall (U : Type) (e1 e2 e3 : U -> num * U) body u m,
   let '(a, u1) := e1 u in let '(b, u2) := e2 u1 in let '(c, u3) := e3 u2 in
